@@ -98,3 +98,57 @@ package usermanager
 //@   # every record the API can create stays decodable by every reader (C18 "no record ... causes a panic")
 //@   ensures keepsRecordsReadable: old(dbWF()) ==> dbWF()
 //@   modifies heap(GD_has), heap(GD_khas), heap(GD_vlen), heap(GD_val)
+
+// UploadStatus (C16/C18): no stored record makes it panic, records stay decodable, no user appears or
+// disappears. ("only the named users are charged" needs an invariant with a nested quantifier that
+// none of the solvers instantiates in time: not claimed.)
+//@ func (*localManager).UploadStatus$1
+//@   flag inline
+//@   loop 0 invariant wf: dbWF()
+//@   loop 0 invariant ownResult: responses == nil || fresh(responses)
+//@ func (*localManager).UploadStatus
+//@   requires manager != nil && manager.db != nil && dbWF()
+//@   ensures keepsRecordsReadable: dbWF()
+//@   ensures noUserCreatedOrDeleted: forall b string :: dbHas(b) == old(dbHas(b))
+//@   modifies heap(GD_khas), heap(GD_vlen), heap(GD_val)
+
+// ---------------------------------------------------------------------------------------------
+// Admin API handlers (C18 "a rejected request changes nothing"). The UserManager behind the router is
+// used through its interface; these interface contracts restate what localManager is proved to do.
+// ---------------------------------------------------------------------------------------------
+//@ func (UserManager).WriteUserInfo
+//@   flag trusted
+//@   modifies heap(GD_has), heap(GD_khas), heap(GD_vlen), heap(GD_val)
+//@ func (UserManager).DeleteUser
+//@   flag trusted
+//@   modifies heap(GD_has)
+//@ func (UserManager).GetUserInfo
+//@   flag trusted
+//@   ensures readOnly: dbSame()
+//@ func (UserManager).ListAllUsers
+//@   flag trusted
+//@   ensures readOnly: dbSame()
+
+// writeUserInfoHlr: the record is written only for a request that decoded, whose UID in the path equals
+// the UID in the body, and that has not already been answered with an error.
+//@ func (*APIRouter).writeUserInfoHlr
+//@   requires ar != nil && ar.manager != nil && r != nil && w != nil
+//@   atcall WriteUserInfo requires decoded: succeeded("(*encoding/json.Decoder).Decode") && succeeded("(*encoding/base64.Encoding).DecodeString")
+//@   atcall WriteUserInfo requires uidMatches: bytesEq(UID, uinfo.UID)
+//@   atcall WriteUserInfo requires notAlreadyRejected: !called("net/http.Error")
+//@   ensures rejectedChangesNothing: !called("(UserManager).WriteUserInfo") ==> dbSame()
+//@   flag noframe
+//@ func (*APIRouter).deleteUserHlr
+//@   requires ar != nil && ar.manager != nil && r != nil && w != nil
+//@   atcall DeleteUser requires decoded: succeeded("(*encoding/base64.Encoding).DecodeString")
+//@   atcall DeleteUser requires notAlreadyRejected: !called("net/http.Error")
+//@   ensures rejectedChangesNothing: !called("(UserManager).DeleteUser") ==> dbSame()
+//@   flag noframe
+//@ func (*APIRouter).getUserInfoHlr
+//@   requires ar != nil && ar.manager != nil && r != nil && w != nil
+//@   ensures readOnly: dbSame()
+//@   flag noframe
+//@ func (*APIRouter).listAllUsersHlr
+//@   requires ar != nil && ar.manager != nil && r != nil && w != nil
+//@   ensures readOnly: dbSame()
+//@   flag noframe
